@@ -939,7 +939,12 @@ impl<W: Word, B: AsRef<[W]>> crate::traits::UncheckedIterator
         if self.fill >= bit_width {
             self.fill -= bit_width;
             let res = self.window & self.vec.mask;
-            self.window >>= bit_width;
+            // A shift by W::BITS (full-width values) would overflow
+            self.window = if bit_width == W::BITS {
+                W::ZERO
+            } else {
+                self.window >> bit_width
+            };
             return res;
         }
 
@@ -948,7 +953,12 @@ impl<W: Word, B: AsRef<[W]>> crate::traits::UncheckedIterator
         self.window = *self.vec.bits.as_ref().get_unchecked(self.word_index);
         let res = (res | (self.window << self.fill)) & self.vec.mask;
         let used = bit_width - self.fill;
-        self.window >>= used;
+        // A shift by W::BITS (full-width values) would overflow
+        self.window = if used == W::BITS {
+            W::ZERO
+        } else {
+            self.window >> used
+        };
         self.fill = W::BITS - used;
         res
     }
@@ -1020,8 +1030,14 @@ impl<W: Word, B: AsRef<[W]>> crate::traits::UncheckedIterator
         self.word_index -= 1;
         self.window = *self.vec.bits.as_ref().get_unchecked(self.word_index);
         let used = bit_width - self.fill;
-        res = ((res << used) | (self.window >> (W::BITS - used))) & self.vec.mask;
-        self.window <<= used;
+        // Shifts by W::BITS (full-width values) would overflow
+        if used == W::BITS {
+            res = self.window & self.vec.mask;
+            self.window = W::ZERO;
+        } else {
+            res = ((res << used) | (self.window >> (W::BITS - used))) & self.vec.mask;
+            self.window <<= used;
+        }
         self.fill = W::BITS - used;
         res
     }
